@@ -274,6 +274,14 @@ def run(ctx, eng):
                      if e.kind == 'assume' and not T.mentions(e.cond, res)]
             if extra:
                 bad.append('storing the method depends on %s' % extra)
+    # ... and only by a call that goes through: a send that is refused (state
+    # machine, trailers without END_STREAM, outbound validation) must not
+    # replace the method the response is measured against
+    for p in cm.raise_paths(eng.I.run(f5)):
+        if any(e.kind == 'write' and e.attr == 'request_method' and
+               e.frame == f5.qual for e in p.events):
+            bad.append('a send_headers call that raises has already '
+                       'overwritten request_method')
     ctx.ob('OWN.method', f5.qual, 'method captured from the request block '
            'only', n > 0 and not bad, '; '.join(sorted(set(bad))) or
            'request_method = extract_method_header(headers) when the block '
